@@ -1,6 +1,7 @@
 package props
 
 import (
+	"bytes"
 	"crypto/sha256"
 	"encoding/json"
 	"fmt"
@@ -85,6 +86,21 @@ func runL1Script(script []c18Op) (trace string, bridges int) {
 		fmt.Fprintf(&sb, "%s => %s\n", op, renderResult(r))
 	}
 	for _, op := range script {
+		if c18Noise && (op.A*7+op.B*3+int(op.C))%2 == 0 {
+			// uncommitted work between the committed messages (CheckTx, simulations, transactions that fail
+			// later): executed on a branch that is thrown away, not part of the trace
+			cctx, _ := e.Ctx.CacheContext()
+			saved := e.Ctx
+			e.Ctx = cctx
+			r := e.Deliver(ophosttypes.NewMsgCreateBridge(users[op.A%4].Str, henv.DefaultBridgeConfig(users[op.A%4].Str, users[op.B%4].Str, time.Second)))
+			if r.OK() {
+				id := r.Resp.(*ophosttypes.MsgCreateBridgeResponse).BridgeId
+				e.Deliver(ophosttypes.NewMsgInitiateTokenDeposit(users[op.B%4].Str, id, "noise", coinOf(denoms[op.A%2], 3), nil))
+				e.Deliver(ophosttypes.NewMsgProposeOutput(users[op.A%4].Str, id, 1, 1, bytes.Repeat([]byte{9}, 32)))
+			}
+			e.Deliver(ophosttypes.NewMsgInitiateTokenDeposit(users[op.B%4].Str, 1, "noise", coinOf("unoise", 0), nil))
+			e.Ctx = saved
+		}
 		switch op.Kind {
 		case "create":
 			p, ch := users[op.A%4], users[op.B%4]
@@ -294,6 +310,18 @@ func runL2Script(script []c18Op) (trace string, maxLeaving int, oracleUpdates in
 		}
 	}
 	for _, op := range script {
+		if c18Noise && (op.A*7+op.B*3+int(op.C))%2 == 0 {
+			// uncommitted work between the committed messages (what the node's mempool checked, simulated, or
+			// executed in a transaction that failed later): runs on a branch that is thrown away
+			branchL2(l2, func(b *henv.L2) {
+				seq, _ := b.K.GetNextL1Sequence(b.Ctx)
+				b.Deliver(opchildtypes.NewMsgFinalizeTokenDeposit(exec.Str, users[0].Str, "bad-recipient", coinOf(denoms[op.A%2], 5), seq, 7, "unoise", nil))
+				b.Q.BaseDenom(b.Ctx, &opchildtypes.QueryBaseDenomRequest{Denom: denoms[op.A%2]})
+				b.Deliver(opchildtypes.NewMsgInitiateTokenWithdrawal(users[op.A%4].Str, "noise", coinOf(denoms[op.A%2], 1)))
+				m, _ := opchildtypes.NewMsgAddValidator("noise", b.Authority, ops[op.B%6].String(), key(op.A%6))
+				b.Deliver(m)
+			})
+		}
 		switch op.Kind {
 		case "block":
 			endBlock()
@@ -308,11 +336,23 @@ func runL2Script(script []c18Op) (trace string, maxLeaving int, oracleUpdates in
 			m, _ := opchildtypes.NewMsgRemoveValidator(l2.Authority, ops[op.A%6].String())
 			emit(op, l2.Deliver(m))
 		case "plan":
-			planN++
-			bz, _ := l2.Enc.Marshaler.MarshalInterfaceJSON(key(100 + planN))
-			// fresh operator and key: outside the recorded findings of C14
-			err := l2.K.RegisterExecutorChangePlan(uint64(planN), uint64(l2.Ctx.BlockHeight()), sdk.ValAddress(henv.MakeUser(fmt.Sprintf("c18-planop-%d", planN)).Addr).String(), "plan", string(bz), "", []string{exec.Str, users[op.A%4].Str})
-			fmt.Fprintf(&sb, "%s => %v\n", op, err)
+			// one to three plans, as an application registers its whole list of plans at start-up: for the current
+			// height and for heights that have passed already (C > 500: also the next height)
+			offsets := [][]int64{{0}, {0}, {-1, 0}, {-2, -1, 0}, {-1}, {-2, 0}}[op.B%6]
+			if op.C > 500 {
+				offsets = append(offsets, 1)
+			}
+			for _, off := range offsets {
+				h := l2.Ctx.BlockHeight() + off
+				if h < 1 {
+					continue
+				}
+				planN++
+				bz, _ := l2.Enc.Marshaler.MarshalInterfaceJSON(key(100 + planN))
+				// fresh operator and key: outside the recorded findings of C14
+				err := l2.K.RegisterExecutorChangePlan(uint64(planN), uint64(h), sdk.ValAddress(henv.MakeUser(fmt.Sprintf("c18-planop-%d", planN)).Addr).String(), "plan", string(bz), "", []string{exec.Str, users[(op.A+planN)%4].Str})
+				fmt.Fprintf(&sb, "%s height%+d => %v\n", op, off, err)
+			}
 		case "deposit":
 			seq, _ := l2.K.GetNextL1Sequence(l2.Ctx)
 			to := users[op.A%4].Str
@@ -380,7 +420,7 @@ func genL2Script(rt *rapid.T) []c18Op {
 	var s []c18Op
 	n := rapid.IntRange(15, 50).Draw(rt, "len")
 	for i := 0; i < n; i++ {
-		k := drawWeighted(rt, "op", []weighted{{"add", 5}, {"remove", 4}, {"block", 5}, {"deposit", 5}, {"withdraw", 3}, {"oracle", 3}, {"plan", 1}})
+		k := drawWeighted(rt, "op", []weighted{{"add", 5}, {"remove", 4}, {"block", 5}, {"deposit", 5}, {"withdraw", 3}, {"oracle", 3}, {"plan", 2}})
 		op := c18Op{Kind: k, A: rapid.IntRange(0, 11).Draw(rt, "a"), B: rapid.IntRange(0, 11).Draw(rt, "b"), C: int64(rapid.IntRange(0, 1000).Draw(rt, "c"))}
 		if k == "deposit" && rapid.IntRange(0, 3).Draw(rt, "hook") == 0 {
 			op.S = "hook"
@@ -393,6 +433,10 @@ func genL2Script(rt *rapid.T) []c18Op {
 // ---- the property ----------------------------------------------------------------------------------------
 
 var c18CaseNo int
+
+// c18Noise: the execution also performs uncommitted work between the committed messages; a node's
+// prior process history must not show in anything it commits or answers.
+var c18Noise bool
 
 func c18Compare(rt *rapid.T, what string, script []c18Op, traces []string) {
 	for i := 1; i < len(traces); i++ {
@@ -423,7 +467,9 @@ func TestC18Rapid(t *testing.T) {
 			var traces []string
 			bridges := 0
 			for i := 0; i < 3; i++ {
+				c18Noise = i == 2
 				tr, nb := runL1Script(script)
+				c18Noise = false
 				traces, bridges = append(traces, tr), nb
 			}
 			c18Compare(rt, "L1", script, traces)
@@ -442,7 +488,9 @@ func TestC18Rapid(t *testing.T) {
 			var traces []string
 			leaving, oracle := 0, 0
 			for i := 0; i < 3; i++ {
+				c18Noise = i == 2
 				tr, l, o := runL2Script(script)
+				c18Noise = false
 				traces, leaving, oracle = append(traces, tr), l, o
 			}
 			c18Compare(rt, "L2", script, traces)
@@ -510,7 +558,10 @@ func TestC18Witness(t *testing.T) {
 	}
 	first := run()
 	for i := 1; i < 20; i++ {
-		if tr := run(); tr != first {
+		c18Noise = i%3 == 2 // every third execution also performs uncommitted work
+		tr := run()
+		c18Noise = false
+		if tr != first {
 			t.Fatalf("C18 violated: execution %d of the saved script differs from execution 0: %s", i, firstDiffLine(first, tr))
 		}
 	}
